@@ -512,6 +512,17 @@ def run_case(griffe, acc, case):
                 acc.violation(f"raise/{type(e).__name__}@{frame}/{pl}", f"load with stubs raised {e!r} ({slot_status}, order {order})", cd, None, size=size)
                 acc.case(cd, outcome="raise")
                 return
+        if top != modpath:
+            # the same package asked for through one of its modules (`load("pkg.mod", ...)`, another way of entering): the stubs are found and merged all the same
+            try:
+                loader = griffe.GriffeLoader(search_paths=[d], allow_inspection=False)
+                loader.load(modpath, **opts)
+                via = observe(loader.modules_collection[modpath])
+                if via != results["asc"][0]:
+                    dd = next(iter(_diff(via, results["asc"][0])), ("?", "?", None, None))
+                    acc.violation(f"entry/requested-by-module/{pl}", f"load({modpath!r}) gives another merge than load({top!r}): {dd[0]} {dd[1]}: {dd[2]!r} vs {dd[3]!r}", cd, None, size=size)
+            except Exception as e:  # noqa: BLE001
+                acc.violation(f"entry/requested-by-module/raise/{type(e).__name__}/{pl}", f"load({modpath!r}) raised {e!r} where load({top!r}) works", cd, None, size=size)
     both = any(v >= 3 for v in sv)
     acc.case({"case": cd["case"]}, outcome=pl + ":" + ("merge" if both else "no-overlap"), nontrivial=both)
     acc.observe(results["asc"][0])
